@@ -407,7 +407,10 @@ pub(super) fn translate_literal(l: Literal, ctx: &Context) -> Result<sql_ast::Ex
     Ok(match l {
         Literal::Null => sql_ast::Expr::Value(Value::Null.into()),
         Literal::String(s) | Literal::RawString(s) => {
-            sql_ast::Expr::Value(Value::SingleQuotedString(s).into())
+            // sqlparser leaves a quote that is followed by another quote (or
+            // preceded by a backslash) as it is, assuming it is escaped
+            // already, so we have to double the quotes ourselves.
+            sql_ast::Expr::Value(Value::SingleQuotedString(s.replace('\'', "''")).into())
         }
         Literal::Boolean(b) => sql_ast::Expr::Value(Value::Boolean(b).into()),
         Literal::Float(f) => sql_ast::Expr::Value(Value::Number(format!("{f:?}"), false).into()),
